@@ -32,11 +32,16 @@ type scriptedReader struct {
 	sched []schedStep
 	final error
 	w     *recWriter
-	reads []string // "len(p)@bytes written so far"
+	reads []string // "len(p):n@bytes written before the call"
 }
 
 func (s *scriptedReader) Read(p []byte) (int, error) {
-	s.reads = append(s.reads, strconv.Itoa(len(p))+"@"+strconv.Itoa(s.w.total))
+	n, err := s.read(p)
+	s.reads = append(s.reads, strconv.Itoa(len(p))+":"+strconv.Itoa(n)+"@"+strconv.Itoa(s.w.total))
+	return n, err
+}
+
+func (s *scriptedReader) read(p []byte) (int, error) {
 	if len(s.rest) == 0 {
 		if len(s.sched) != 0 {
 			s.sched = s.sched[1:]
@@ -249,8 +254,8 @@ func genSched(r *rand.Rand, n int) []schedStep {
 	default:
 		var out []schedStep
 		max := 1 + r.Intn(200)
-		if r.Intn(3) == 0 {
-			max = 1 + r.Intn(40000)
+		if r.Intn(3) == 0 || n > 4000 {
+			max = 400 + r.Intn(40000)
 		}
 		for tot := 0; tot < n+10 && len(out) < 4000; {
 			k := r.Intn(max + 1)
